@@ -286,7 +286,7 @@ PROPS = {
                 "fresh engine (self-differential), each location's final facts, rules and stored ids equal the solo run's, no deadlock, task panic or step "
                 "budget overrun. Non-trivial: at least one task switch; distinct as in distinct_measure. Race phase: the same plans' worlds are executed again in a binary built with -race whose scheduler hands the token over through pipes with raw system calls (no happens-before edge from the scheduler): execution stays serial and tape-driven, and every pair of conflicting accesses that rulio's own synchronisation does not order in the simulated schedule is reported as a data-race violation (replayable, minimised).",
         "components": {"real": ["sys.System incl. location cache", "core", "rule-action goroutines as simulator tasks"], "stub": ["simrt token scheduler (instrumented sync/go/WaitGroup/map range)", "SimStorage wrapper with yield points", "SimCron"]},
-        "assumptions": ["System.ensureStorage has no yield point inside (no lock, no call-out): its unsynchronised check-then-set cannot be interleaved by this scheduler (the race phase would report it if two tasks reached it unordered)",
+        "assumptions": ["three runs in four get their storage injected (SimStorage); in the fourth the System makes its own at its first requests",
                         "requests go through sys.System (the HTTP handler adds only per-request contexts)"],
     },
     "C04": {
